@@ -2,7 +2,7 @@
 //! (The pointer-range assertions are also C20's sub-slice/ordering claim.)
 use crate::adapt::RefLike;
 use crate::oracle::{split_ref, tiles, RefSplit, R};
-use crate::sym::{assume, is_subslice, Text};
+use crate::sym::{as_str, assume, bytes_eq, is_subslice, vec_of, Text};
 use crate::{cover, tables};
 use iref_core::{iri, uri, Iri, IriBuf, IriRef, IriRefBuf, Uri, UriBuf, UriRef, UriRefBuf};
 
@@ -52,18 +52,37 @@ fn shape_covers(b: &[u8], s: &RefSplit) {
     );
 }
 
-fn uriref_body<const N: usize>() {
-    let t = Text::<N>::any();
-    let b = t.bytes();
-    assume(tables::t_uri_uriref_valid(b));
-    let want = split_ref(b);
-    assert!(tiles(b, &want), "oracle self-check: App. B ranges tile the text");
-    let x = unsafe { UriRef::new_unchecked(b) };
-    assert!(x.as_bytes().as_ptr() == b.as_ptr() && x.as_bytes().len() == b.len());
-    check_decomposition(x, &want);
-    shape_covers(b, &want);
-    cover!(b.len() == N, "maximal length");
+macro_rules! body {
+    ($fname:ident, $table:ident, $b:ident => $mk:expr) => {
+        fn $fname<const N: usize>() {
+            let t = Text::<N>::any();
+            let $b = t.bytes();
+            let b = $b;
+            assume(tables::$table(b));
+            let want = split_ref(b);
+            assert!(tiles(b, &want), "oracle self-check: App. B ranges tile the text");
+            let x = $mk;
+            assert!(bytes_eq(x.text(), b), "the value does not hold exactly the input text");
+            check_decomposition(&*x, &want);
+            shape_covers(b, &want);
+            cover!(b.len() == N, "maximal length");
+            std::mem::forget(x);
+        }
+    };
 }
+
+body!(uriref_body, t_uri_uriref_valid, b => unsafe { UriRef::new_unchecked(b) });
+body!(uri_body, t_uri_uri_valid, b => unsafe { Uri::new_unchecked(b) });
+body!(iriref_body, t_iri_iriref_valid, b => unsafe { IriRef::new_unchecked(as_str(b)) });
+body!(iri_body, t_iri_iri_valid, b => unsafe { Iri::new_unchecked(as_str(b)) });
+body!(urirefbuf_body, t_uri_uriref_valid, b => unsafe { Box::new(UriRefBuf::new_unchecked(vec_of(b))) });
+body!(uribuf_body, t_uri_uri_valid, b => unsafe { Box::new(UriBuf::new_unchecked(vec_of(b))) });
+body!(irirefbuf_body, t_iri_iriref_valid, b => unsafe {
+    Box::new(IriRefBuf::new_unchecked(String::from_utf8_unchecked(vec_of(b))))
+});
+body!(iribuf_body, t_iri_iri_valid, b => unsafe { Box::new(IriBuf::new_unchecked(String::from_utf8_unchecked(vec_of(b)))) });
+
+const ENC: &str = "";
 
 // @h prop=C02,C20 tier=quick kind=check bound="UriRef text <= 12 bytes" encodes="parse::{scheme_authority_or_path,authority_or_path,find_scheme,find_authority,find_path,path,find_query,query,find_fragment,fragment,reference_parts};RiRefImpl::{scheme_opt,authority,path,query,fragment};UriRef::parts"
 #[cfg_attr(kani, kani::proof)]
@@ -72,9 +91,110 @@ pub fn c02_uriref_n12() {
     uriref_body::<12>()
 }
 
-// @h prop=C02,C20 tier=thorough kind=check bound="UriRef text <= 16 bytes" encodes="same as c02_uriref_n12"
+// @h prop=C02,C20 tier=thorough kind=check timeout=2400 bound="UriRef text <= 16 bytes" encodes="same functions as c02_uriref_n12"
 #[cfg_attr(kani, kani::proof)]
 #[cfg_attr(kani, kani::unwind(18))]
 pub fn c02_uriref_n16() {
     uriref_body::<16>()
+}
+
+// @h prop=C02,C20 tier=quick kind=check bound="Uri text <= 10 bytes" encodes="parse::{scheme,parts,authority_or_path,path,query,fragment,find_authority,find_path,find_query,find_fragment};RiImpl::scheme;Uri::parts"
+#[cfg_attr(kani, kani::proof)]
+#[cfg_attr(kani, kani::unwind(12))]
+pub fn c02_uri_n10() {
+    uri_body::<10>()
+}
+
+// @h prop=C02,C20 tier=thorough kind=check timeout=2400 bound="Uri text <= 16 bytes" encodes="same functions as c02_uri_n10"
+#[cfg_attr(kani, kani::proof)]
+#[cfg_attr(kani, kani::unwind(18))]
+pub fn c02_uri_n16() {
+    uri_body::<16>()
+}
+
+// @h prop=C02,C20 tier=quick kind=check bound="IriRef text <= 10 bytes (UTF-8, incl. 2-4 byte scalars)" encodes="same parse::* functions via RiRefImpl for IriRef;IriRef::parts"
+#[cfg_attr(kani, kani::proof)]
+#[cfg_attr(kani, kani::unwind(12))]
+pub fn c02_iriref_n10() {
+    iriref_body::<10>()
+}
+
+// @h prop=C02,C20 tier=thorough kind=check timeout=2400 bound="IriRef text <= 14 bytes" encodes="same as c02_iriref_n10"
+#[cfg_attr(kani, kani::proof)]
+#[cfg_attr(kani, kani::unwind(16))]
+pub fn c02_iriref_n14() {
+    iriref_body::<14>()
+}
+
+// @h prop=C02,C20 tier=quick kind=check bound="Iri text <= 8 bytes" encodes="parse::{scheme,parts} via RiImpl for Iri;Iri::parts"
+#[cfg_attr(kani, kani::proof)]
+#[cfg_attr(kani, kani::unwind(10))]
+pub fn c02_iri_n8() {
+    iri_body::<8>()
+}
+
+// @h prop=C02 tier=thorough kind=check timeout=2400 bound="Iri text <= 14 bytes" encodes="same as c02_iri_n8"
+#[cfg_attr(kani, kani::proof)]
+#[cfg_attr(kani, kani::unwind(16))]
+pub fn c02_iri_n14() {
+    iri_body::<14>()
+}
+
+// @h prop=C02 tier=quick kind=check bound="UriRefBuf text <= 10 bytes (owned view)" encodes="RiRefImpl for UriRefBuf (own impl);UriRefBuf deref accessors"
+#[cfg_attr(kani, kani::proof)]
+#[cfg_attr(kani, kani::unwind(12))]
+pub fn c02_urirefbuf_n10() {
+    urirefbuf_body::<10>()
+}
+
+// @h prop=C02 tier=thorough kind=check bound="UriBuf text <= 12 bytes (owned view)" encodes="RiRefImpl/RiImpl for UriBuf"
+#[cfg_attr(kani, kani::proof)]
+#[cfg_attr(kani, kani::unwind(14))]
+pub fn c02_uribuf_n12() {
+    uribuf_body::<12>()
+}
+
+// @h prop=C02 tier=quick kind=check bound="IriRefBuf text <= 8 bytes (owned view)" encodes="RiRefImpl for IriRefBuf"
+#[cfg_attr(kani, kani::proof)]
+#[cfg_attr(kani, kani::unwind(10))]
+pub fn c02_irirefbuf_n8() {
+    irirefbuf_body::<8>()
+}
+
+// @h prop=C02 tier=thorough kind=check bound="IriBuf text <= 12 bytes (owned view)" encodes="RiRefImpl/RiImpl for IriBuf"
+#[cfg_attr(kani, kani::proof)]
+#[cfg_attr(kani, kani::unwind(14))]
+pub fn c02_iribuf_n12() {
+    iribuf_body::<12>()
+}
+
+/// Each returned component is itself a valid value of its component type
+/// (real small-DFA constructors; Authority by its table twin).
+fn components_valid<const N: usize>() {
+    let t = Text::<N>::any();
+    let b = t.bytes();
+    assume(tables::t_uri_uriref_valid(b));
+    let x = unsafe { UriRef::new_unchecked(b) };
+    let p = x.parts();
+    if let Some(s) = p.scheme {
+        assert!(uri::Scheme::new(s.as_bytes()).is_ok(), "returned scheme is not a valid Scheme");
+    }
+    if let Some(a) = p.authority {
+        assert!(tables::t_uri_authority_valid(a.as_bytes()), "returned authority is not a valid Authority");
+    }
+    assert!(uri::Path::new(p.path.as_bytes()).is_ok(), "returned path is not a valid Path");
+    if let Some(q) = p.query {
+        assert!(uri::Query::new(q.as_bytes()).is_ok(), "returned query is not a valid Query");
+    }
+    if let Some(f) = p.fragment {
+        assert!(uri::Fragment::new(f.as_bytes()).is_ok(), "returned fragment is not a valid Fragment");
+    }
+    cover!(p.scheme.is_some() && p.authority.is_some() && p.query.is_some() && p.fragment.is_some(), "all optional parts present");
+}
+
+// @h prop=C02 tier=quick kind=check bound="UriRef text <= 8 bytes" encodes="UriRef::parts;Scheme::new;Path::new;Query::new;Fragment::new (real generated validate of the small types)"
+#[cfg_attr(kani, kani::proof)]
+#[cfg_attr(kani, kani::unwind(10))]
+pub fn c02_uriref_components_valid_n8() {
+    components_valid::<8>()
 }
